@@ -379,19 +379,12 @@ def _ref_one(key):
         return ("ERR", repr(e)[:200])
 
 
-_TABLE_CTX = ("table", "tbody", "thead", "tfoot", "tr", "td", "th", "caption", "colgroup")
-
-
 def _excluded(text, ctx):
     k = (text, ctx)
     if k not in EXCLUDED:
         r = list(h5l.excluded(text, ctx))
         if text.startswith("\ufeff"):
             r.append("byte order mark (input-stream preprocessing, not tree construction)")
-        # reference deviation reported to the coordinator: html5lib's in-table `<table>` start tag still "acts as if
-        # an end tag table had been seen" in the current phase, which closes tr/tbody in a fragment without a table
-        if ctx and ctx[1] in _TABLE_CTX and "<table" in text.lower():
-            r.append("<table> start tag in a table-part fragment context (html5lib implements the pre-2013 wording)")
         EXCLUDED[k] = r
     return EXCLUDED[k]
 
